@@ -214,6 +214,30 @@ def diagMstep {D : Nat} (tiny : α) (N : Nat) (w _aux : Fin N → α) (y : Fin N
   let mean := gaussMean tiny w y
   ⟨mean, tab fun d => (vsum fun n => w n * ((y n d - rd mean d) * (y n d - rd mean d))) / den⟩
 
+/-- `Gaussian(mean, covariance)` with a full covariance matrix -/
+structure FullG (α : Type) (D : Nat) where
+  mean : Tab D α
+  cov : Tab D (Tab D α)
+
+/-- `Gaussian.log_pdf`.  External: `pchol cov = (P, ℓ)` = sklearn's `_compute_precision_cholesky(cov, 'full')` (upper
+triangular `P` with `P Pᵀ = Σ⁻¹`) and `_compute_log_det_cholesky` (`ℓ = Σ_d log P_dd`).  Whitening as in the source,
+`np.einsum('...Dd,...nD->...nd', precision_cholesky, difference)`: `white_d = Σ_e P[e][d]·(y_e − μ_e)`. -/
+def fullLogPdf {D : Nat} (pchol : Tab D (Tab D α) → Tab D (Tab D α) × α) (log2pi : α) (θ : FullG α D)
+    (y : Fin D → α) : α :=
+  let pe := pchol θ.cov
+  let white : Tab D α := tab fun d => vsum fun e => rd2 pe.1 e d * (y e - rd θ.mean e)
+  (-(half * (D : α) * log2pi)) + pe.2 - half * vsum fun d => rd white d * rd white d
+
+/-- `covariance_type='full'`: `Σ_n w_n (y_n − μ)(y_n − μ)ᵀ / Σ_n w_n` -/
+def fullMstep {D : Nat} (tiny : α) (N : Nat) (w _aux : Fin N → α) (y : Fin N → Fin D → α) : FullG α D :=
+  let den := max (vsum w) tiny
+  let mean := gaussMean tiny w y
+  ⟨mean, tab2 fun d e => (vsum fun n => w n * ((y n d - rd mean d) * (y n e - rd mean e))) / den⟩
+
+def fullFamily (D : Nat) (pchol : Tab D (Tab D α) → Tab D (Tab D α) × α) (tiny log2pi : α) :
+    Family (FullG α D) (Fin D → α) α :=
+  ⟨fullLogPdf pchol log2pi, fun _ _ => 1, fullMstep tiny⟩
+
 def sphFamily (D : Nat) (tiny log2pi : α) : Family (SphG α D) (Fin D → α) α :=
   ⟨sphLogPdf log2pi, fun _ _ => 1, sphMstep tiny⟩
 
